@@ -16,6 +16,14 @@ NOTES = ("Every check = TLA+ specification under spec/ checked by TLC + conforma
          "known_findings.json lists genuine defects (known / fixed).")
 NOT_APPLICABLE = {}
 CHECKS = {
+    "C05": {
+        "level": "model_checking",
+        "technique": "TLA+ spec Selectors.tla (declarative Matches vs right-to-left candidate-set state machine) model-checked by TLC; every (tree, selector) state replayed into css/selector",
+        "text": "TLC enumerates every (DOM tree, selector) pair of six bounded families, checks in each that the implementation-shaped right-to-left "
+                "evaluation equals the declarative Selectors relation, and emits the required match vector and specificity; the real ParseGroup/Match/"
+                "Specificity/PseudoElement/String are compared on every node, before and after printing the selector back.",
+        "note": "Bounded tree size and selector depth; root element excluded for structural pseudo-classes; :link/:lang/:enabled/:disabled/:checked not modelled.",
+    },
     "C06": {
         "level": "model_checking",
         "technique": "TLA+ specs CssSyntax.tla (tokenizer transition system) and CssParse.tla (rule/declaration cursor machine) model-checked by TLC; every terminal state replayed into css/parser and compared token by token",
